@@ -105,3 +105,31 @@ Theorem C12_none_codec_roundtrip : forall wbuf rbuf sched b rest,
     run_arops s' (arops_of rest) = avals_of rest.
 Proof. exact none_codec_roundtrip. Qed.
 Print Assumptions C12_none_codec_roundtrip.
+
+(* ---------- the range codec: model of the whole codec, theorem for its chunk header ---------- *)
+From KV Require Import Model.RangeCodec Proofs.RangeHeaderProofs.
+(* entropy/RangeCodec.go is modelled as a whole (Model/RangeCodec.v: histogram, NormalizeFrequencies, header, the
+   carry-less range coder with its uint64 wrap-around, the decoder) and compared with the Go codec through its public
+   API on every run (rgm: stream bytes, decoded bytes, truncated streams).  Proved here: the chunk header - alphabet,
+   log range, frequencies of all symbols but the first by chunks of 6 or 8 with a per-chunk bit width, first frequency
+   inferred from the sum - for EVERY normalized table (sorted non-empty alphabet of byte values, every frequency in
+   [1, 2^lr), sum 2^lr, zero elsewhere; lr in 8..15 - lr = 16 is accepted by the constructor but does not fit the
+   3-bit field), written anywhere in a stream, any buffers and source schedule: decodeHeader returns the table and the log
+   range and consumes exactly the header.  The coder itself (interval arithmetic) is not proved. *)
+Theorem C12_range_header_roundtrip : forall wbuf rbuf sched lr alpha fr hops fr0 rest,
+  8 <= lr <= 15 -> StronglySorted N.lt alpha -> alpha <> [] -> table_ok lr alpha fr -> length fr0 = 256%nat ->
+  header_ops lr alpha fr = Some hops -> Forall aop_ok (map conv hops) ->
+  40 <= wbuf -> wbuf mod 8 = 0 -> 0 < rbuf -> rbuf mod 8 = 0 -> Forall aop_ok rest ->
+  exists s1 s2 s', run_aops (new_obs wbuf) (map conv hops ++ rest) = (s1, false) /\ close healthy s1 = (s2, false) /\
+    decode_header (new_ibs rbuf (mkSrc (o_out s2) sched None 0)) fr0 = (s', HFreqs alpha fr lr) /\
+    run_arops s' (arops_of rest) = avals_of rest.
+Proof. exact range_header_stream_roundtrip. Qed.
+Print Assumptions C12_range_header_roundtrip.
+
+Example C12_range_instance :
+  let blk := [104; 101; 108; 108; 111; 32; 104; 101; 108; 108; 111; 32; 119; 111; 114; 108; 100; 33; 33; 33; 0; 255; 104; 104; 101; 101] in
+  match range_encode blk with
+  | Some out => range_decode 26 out = ROk blk /\ length out = 56%nat /\ range_decode 26 (firstn 40 out) = RPanic
+  | None => False
+  end.
+Proof. vm_compute. repeat split; reflexivity. Qed.
